@@ -6,6 +6,7 @@ logic.py for decision-making while keeping I/O operations (func calls, sleep) he
 """
 
 import asyncio
+import threading
 from collections.abc import Callable
 from concurrent.futures import ThreadPoolExecutor
 from concurrent.futures import TimeoutError as FutureTimeoutError
@@ -53,7 +54,8 @@ def _call_with_timeout(func: Callable[[], T], timeout_s: float) -> T:
     executor = ThreadPoolExecutor(max_workers=1)
     future = executor.submit(func)
     try:
-        result = future.result(timeout=timeout_s)
+        # Waiting longer than the platform allows raises OverflowError; such a timeout never fires anyway.
+        result = future.result(timeout=min(timeout_s, threading.TIMEOUT_MAX))
         raised = future.exception()
         if raised is not None:
             # Future.result() tests the stored exception for truth; a falsy one must still propagate.
